@@ -573,4 +573,137 @@ example :
     neverMatched (.binOn ["instance"] l r) = [0] ∧
     joined ["job", "instance"] true ["job"] l r = [] ∧ joined ["job", "instance"] true ["instance"] l r ≠ [] := by decide
 
+/-! ## no flag without a rejection: every "never matched" verdict anywhere in the `Joins` / `Unless` tree goes back to a
+`canJoin` call, inside the query, that rejected a pair of sources -/
+
+/-- some operation inside `e` hands `canJoin` a pair of sources (its own transformed source, a source of the other
+operand) that it rejects -/
+def rejectsSomewhere : Expr → Bool
+  | .sel _ => false
+  | .aggBy _ e => rejectsSomewhere e
+  | .aggWithout _ e => rejectsSomewhere e
+  | .topk e => rejectsSomewhere e
+  | .countValuesBy _ _ e => rejectsSomewhere e
+  | .func e => rejectsSomewhere e
+  | .labelReplace _ e => rejectsSomewhere e
+  | .absent _ => false
+  | .vec => false
+  | .binOn m l r => rejectsSomewhere l || rejectsSomewhere r ||
+      (analyse (.binOn m l r)).any fun s => (analyse r).any fun x => !canJoin true m s x
+  | .binIgn m l r => rejectsSomewhere l || rejectsSomewhere r ||
+      (analyse (.binIgn m l r)).any fun s => (analyse r).any fun x => !canJoin false m s x
+  | .groupLeft on m incl l r => rejectsSomewhere l || rejectsSomewhere r ||
+      (analyse (.groupLeft on m incl l r)).any fun s => (analyse r).any fun x => !canJoin on m s x
+  | .groupRight on m incl l r => rejectsSomewhere l || rejectsSomewhere r ||
+      (analyse (.groupRight on m incl l r)).any fun s => (analyse l).any fun x => !canJoin on m s x
+  | .setAnd on m l r => rejectsSomewhere l || rejectsSomewhere r ||
+      (analyse (.setAnd on m l r)).any fun s => (analyse r).any fun x => !canJoin on m s x
+  | .setOr _ _ l r => rejectsSomewhere l || rejectsSomewhere r
+  | .withScalar e => rejectsSomewhere e
+
+theorem joinFlags_pos' (on : Bool) (m : LS) (s : Src) (rs : List Src) (cs : List Nat)
+    (h : 0 < joinFlags on m s rs cs) : 0 < cs.sum ∨ ∃ r ∈ rs, canJoin on m s r = false := by
+  by_cases hc : 0 < cs.sum
+  · exact Or.inl hc
+  · exact Or.inr (joinFlags_pos on m s rs cs (by omega))
+
+theorem zipWith_flags_pos (on : Bool) (m : LS) (rs : List Src) (rc : List Nat) :
+    ∀ (ss : List Src) (cs : List Nat),
+    0 < (List.zipWith (fun s c => c + joinFlags on m s rs rc) ss cs).sum →
+    0 < cs.sum ∨ 0 < rc.sum ∨ ∃ s ∈ ss, ∃ r ∈ rs, canJoin on m s r = false := by
+  intro ss
+  induction ss with
+  | nil => intro cs h; simp at h
+  | cons s ss ih =>
+    intro cs h
+    cases cs with
+    | nil => simp at h
+    | cons c cs =>
+      simp only [List.zipWith_cons_cons, List.sum_cons] at h ⊢
+      by_cases hc : 0 < c
+      · exact Or.inl (by omega)
+      · by_cases hj : 0 < joinFlags on m s rs rc
+        · rcases joinFlags_pos' on m s rs rc hj with h1 | ⟨r, hr, hrej⟩
+          · exact Or.inr (Or.inl h1)
+          · exact Or.inr (Or.inr ⟨s, by simp, r, hr, hrej⟩)
+        · rcases ih cs (by omega) with h1 | h1 | ⟨s', hs', r, hr, hrej⟩
+          · exact Or.inl (by omega)
+          · exact Or.inr (Or.inl h1)
+          · exact Or.inr (Or.inr ⟨s', by simp [hs'], r, hr, hrej⟩)
+
+theorem any_rejects {on : Bool} {m : LS} {ss rs : List Src}
+    (h : ∃ s ∈ ss, ∃ r ∈ rs, canJoin on m s r = false) :
+    (ss.any fun s => rs.any fun x => !canJoin on m s x) = true := by
+  obtain ⟨s, hs, r, hr, hrej⟩ := h
+  simp only [List.any_eq_true, Bool.not_eq_true']
+  exact ⟨s, hs, r, hr, hrej⟩
+
+/-- **C12, no flag without a rejection**: if `WalkSources` finds a "never matched" verdict anywhere below a source of
+the query, some operation inside the query handed `canJoin` a pair of sources that it rejected -/
+theorem flag_has_rejection : ∀ e : Expr, 0 < (neverMatched e).sum → rejectsSomewhere e = true := by
+  intro e
+  induction e with
+  | sel ms => intro h; simp [neverMatched] at h
+  | aggBy g e ih => intro h; exact ih (by simpa [neverMatched] using h)
+  | aggWithout g e ih => intro h; exact ih (by simpa [neverMatched] using h)
+  | topk e ih => intro h; exact ih (by simpa [neverMatched] using h)
+  | countValuesBy g v e ih => intro h; exact ih (by simpa [neverMatched] using h)
+  | func e ih => intro h; exact ih (by simpa [neverMatched] using h)
+  | labelReplace d e ih => intro h; exact ih (by simpa [neverMatched] using h)
+  | absent ms => intro h; simp [neverMatched] at h
+  | vec => intro h; simp [neverMatched] at h
+  | withScalar e ih => intro h; exact ih (by simpa [neverMatched] using h)
+  | setOr o m l r ihl ihr =>
+    intro h
+    simp only [neverMatched, List.sum_append] at h
+    simp only [rejectsSomewhere, Bool.or_eq_true]
+    by_cases hl : 0 < (neverMatched l).sum
+    · exact Or.inl (ihl hl)
+    · exact Or.inr (ihr (by omega))
+  | binOn m l r ihl ihr =>
+    intro h
+    simp only [neverMatched] at h
+    simp only [rejectsSomewhere, Bool.or_eq_true]
+    rcases zipWith_flags_pos true m (analyse r) (neverMatched r) _ _ h with h1 | h1 | h1
+    · exact Or.inl (Or.inl (ihl h1))
+    · exact Or.inl (Or.inr (ihr h1))
+    · exact Or.inr (any_rejects h1)
+  | binIgn m l r ihl ihr =>
+    intro h
+    simp only [neverMatched] at h
+    simp only [rejectsSomewhere, Bool.or_eq_true]
+    rcases zipWith_flags_pos false m (analyse r) (neverMatched r) _ _ h with h1 | h1 | h1
+    · exact Or.inl (Or.inl (ihl h1))
+    · exact Or.inl (Or.inr (ihr h1))
+    · exact Or.inr (any_rejects h1)
+  | groupLeft o m i l r ihl ihr =>
+    intro h
+    simp only [neverMatched] at h
+    simp only [rejectsSomewhere, Bool.or_eq_true]
+    rcases zipWith_flags_pos o m (analyse r) (neverMatched r) _ _ h with h1 | h1 | h1
+    · exact Or.inl (Or.inl (ihl h1))
+    · exact Or.inl (Or.inr (ihr h1))
+    · exact Or.inr (any_rejects h1)
+  | groupRight o m i l r ihl ihr =>
+    intro h
+    simp only [neverMatched] at h
+    simp only [rejectsSomewhere, Bool.or_eq_true]
+    rcases zipWith_flags_pos o m (analyse l) (neverMatched l) _ _ h with h1 | h1 | h1
+    · exact Or.inl (Or.inr (ihr h1))
+    · exact Or.inl (Or.inl (ihl h1))
+    · exact Or.inr (any_rejects h1)
+  | setAnd o m l r ihl ihr =>
+    intro h
+    simp only [neverMatched] at h
+    simp only [rejectsSomewhere, Bool.or_eq_true]
+    rcases zipWith_flags_pos o m (analyse r) (neverMatched r) _ _ h with h1 | h1 | h1
+    · exact Or.inl (Or.inl (ihl h1))
+    · exact Or.inl (Or.inr (ihr h1))
+    · exact Or.inr (any_rejects h1)
+
+/-- the converse fails, and that is pint's behaviour: `or` records no joins, so a rejection below it is never reported -/
+example :
+    let e := Expr.setOr true ["job"] (.sel [{ label := "job", kind := .eq }]) (.aggBy ["instance"] (.sel []))
+    rejectsSomewhere e = false ∧ (neverMatched e).sum = 0 := by decide
+
 end Pint.Props.C12
